@@ -492,11 +492,15 @@ def native_catalogue():
             load(rows)
         except Exception as e:  # noqa
             failures.append(dict(key="cid-sound-rejected", what="sound CID %r was refused: %s: %s" % (rows, type(e).__name__, e), args=dict(rows=rows)))
-    for rows, line in (([["d", "format", "delimited"], ["d", "allowed characters", "\"A\"...\"Z\""], ["f", "country_code", "at", "", "2", "Text", ""]], 2),):
+    for rows, line in (([["d", "format", "delimited"], ["d", "allowed characters", "\"A\"...\"Z\""], ["f", "country_code", "at", "", "2", "Text", ""]], 2),
+                       ([["d", "format", "delimited"], ["f", "code", " ab", "", "2", "Text", ""]], 2),
+                       ([["d", "format", "delimited"], ["f", "code", "ab ", "", "2", "Text", ""]], 2),
+                       ([["d", "format", "delimited"], ["f", "code", " 7", "", "", "Choice", "7,8"]], 2),
+                       ([["d", "format", "fixed"], ["f", "code", "ab  ", "", "3", "Text", ""]], 2)):
         n += 1
         try:
             load(rows)
-            failures.append(dict(key="cid-defect-accepted", what="CID %r: the example violates the allowed characters but was accepted" % (rows,),
+            failures.append(dict(key="cid-defect-accepted", what="CID %r: its example is not accepted by the field it belongs to, yet the CID was accepted" % (rows,),
                                  args=dict(rows=rows)))
         except errors.InterfaceError:
             pass
